@@ -36,7 +36,8 @@ OTHER_KIND_LINES = ["  0 = B 120000", "  0 = TS 4", "  0 = TS 4 3", "  0 = A 500
 def required(tier):
     return ["accept:N:digits1", "accept:N:digits>=20", "accept:N:digits40", "accept:S:digits40", "accept:E", "accept:padded",
             "accept:leading_zeros", "reject:other_kind", "reject:S_index", "reject:N_index", "reject:E_multiword",
-            "nearmiss:accept", "nearmiss:reject", "dontcare", "section_route", "line_text_shared_with_events_section", "accept:line_longer_than_128_chars"]
+            "nearmiss:accept", "nearmiss:reject", "dontcare", "section_route", "line_text_shared_with_events_section", "accept:line_longer_than_128_chars",
+            "section_without_notes:E", "section_without_notes:S", "no_line_terminator_after_the_last_brace", "direct_section_entry:generator"]
 
 
 def shards(tier, seed):
@@ -188,19 +189,35 @@ def section_route(rec, rng, pool_reject):
             body.append(f"{lp}{t2} = S 2 {'0' * 120}7{rp}")
             tr["tevents"].append([t2 + 1, "w" * 150])
             body.append(f"{lp}{t2 + 1} = E {'w' * 150}{rp}")
-            for _ in range(rng.choice([0, 3, 10])):
+            for _ in range(rng.choice([0, 3, 10, 10, 75, 140])):
                 ln = rng.choice(pool_reject)
                 if ln not in ("{", "}"):
                     body.insert(rng.randint(0, len(body)), ln)
         secs.append((name, body))
+    # a section without any note: only track events, only phrases, or both (solo markers copied to a difficulty not charted yet)
+    free = [pr for pr in model.ALL_PAIRS if f"{pr[0]}/{pr[1]}" not in case["truth"]["tracks"]]
+    if free and rng.random() < 0.5:
+        i_, d_ = rng.choice(free)
+        kind = rng.choice(["E", "S", "ES"])
+        ticks = sorted(rng.sample(range(0, 5000), rng.choice([1, 2, 6])))
+        te = [[t, rng.choice(["solo", "soloend", "ENABLE_CHART_DYNAMICS", gen.gen_word(rng)])] for t in ticks] if "E" in kind else []
+        ph = [[t, rng.choice([0, 1, 96, 768])] for t in ticks] if "S" in kind else []
+        case["truth"]["tracks"][f"{i_}/{d_}"] = {"groups": [], "phrases": ph, "tevents": te}
+        body = [(t, 1, f"  {t} = S 2 {ln}") for t, ln in ph] + [(t, 2, f"  {t} = E {w}") for t, w in te]
+        body.sort(key=lambda x: (x[0], x[1]))
+        secs.insert(rng.randint(3, len(secs)) if len(secs) >= 3 else len(secs), (model.header(i_, d_), [x[2] for x in body]))
+        rec.cls("section_without_notes:" + kind)
     if shared:
         shared.sort(key=lambda x: x[0])
         secs = [(n, ([x[1] for x in shared] if n == "Events" else b)) for n, b in secs]
         case["truth"]["globals"] = [[t, "text", v] for t, _, v in shared]
         rec.cls("line_text_shared_with_events_section")
-    c = {"text": gen.render_sections(secs), "truth": case["truth"]}
+    final = rng.random() < 0.75
+    if not final:
+        rec.cls("no_line_terminator_after_the_last_brace")
+    c = {"text": gen.render_sections(secs, rng.choice(["\n", "\n", "\r\n", "mixed"]), final), "truth": case["truth"], "sections": [[n, b] for n, b in secs]}
     out, ob, d = mcheck.judge(rec, ("C07",), c, extra=extra)
-    if d is not None and not mcheck.select(d, ("C07",), extra):
+    if d is not None and not mcheck.select(d, ("C07",), extra) and mcheck.direct_sections(rec, ("C07",), c, out):
         rec.cls("section_route")
 
 
